@@ -6,7 +6,30 @@ model answers Err 99 and the run stops as CHECK-BROKEN."""
 import hashlib, zlib
 from oracle import security as S
 
-PADDING = S.PAD
+
+
+def _generated_padding():
+    """the model is parameterised by the PADDING regenerated from crypt.rs (Gen/Generated.v); its oracle queries are
+    enumerated with the same value (the spec oracle keeps the standard's string, so a changed table shows as impl != spec)"""
+    import os, re
+    try:
+        g = open(os.path.join(os.path.dirname(os.path.abspath(__file__)), "..", "..", "coq", "theories", "Gen", "Generated.v")).read()
+        m = re.search(r"Definition PADDING : list N := \[([^\]]*)\]", g)
+        v = bytes(int(x) for x in m.group(1).split(";") if x.strip())
+        return v if v else S.PAD
+    except Exception:
+        return S.PAD
+
+
+_PAD = None
+
+
+def PAD():
+    """read lazily: the plugin is imported before the translator has regenerated Gen/Generated.v"""
+    global _PAD
+    if _PAD is None:
+        _PAD = _generated_padding()
+    return _PAD
 M_NONE, M_V2, M_AESV2, M_AESV3 = 0, 1, 2, 3
 _AES_CACHE = {}
 
@@ -87,7 +110,7 @@ def rc4(key, data):
 
 
 def pad_password(pw):
-    return pw + PADDING[:32 - len(pw)] if len(pw) < 32 else pw[:32]
+    return pw + PAD()[:32 - len(pw)] if len(pw) < 32 else pw[:32]
 
 
 def xor_key(k, i):
@@ -96,8 +119,8 @@ def xor_key(k, i):
 
 def compute_u(rec, rev, id0, key):
     if rev == 2:
-        return rc4(key, PADDING)
-    d = rc4(key, rec.md5(PADDING + id0))
+        return rc4(key, PAD())
+    d = rc4(key, rec.md5(PAD() + id0))
     for i in range(1, 20):
         d = rc4(xor_key(key, i), d)
     return d
